@@ -55,19 +55,21 @@ def check_sequence(lang, batch, seq, fail, on_step=None):
         s1 = rc.snapshot(batch)
         ch = s0 != s1
         obs.append((f, ch))
-        if on_step:
-            on_step(i, f, ch)
         if result_key(out) != result_key(fresh[f]) or (out[0] == 'ok' and out[1] != fresh[f][1]):
             def short(r):
                 return r[1][:160] if r[0] == 'ok' else r
             fail('output_depends_on_history',
                  f'[{lang}] format {f!r} after history {seq[:i]} gives {short(out)!r}; on a fresh copy it gives {short(fresh[f])!r}',
                  {'lang': lang, 'sequence': seq[:i + 1], 'batch': rc.enc_batch(pristine)})
+            if on_step:
+                on_step(i, f, ch)
             break
         if ch:
             fail('objects_changed',
                  f'[{lang}] rendering {f!r} (after {seq[:i]}) changed the result objects: {rc.first_difference(s0, s1)}',
                  {'lang': lang, 'sequence': seq[:i + 1], 'batch': rc.enc_batch(pristine)})
+        if on_step:
+            on_step(i, f, ch)
     if rc.enc_batch(batch) != rc.enc_batch(pristine) and not any(c for _, c in obs):
         fail('objects_changed', f'[{lang}] result objects differ from the pristine copy after {seq}', {'lang': lang, 'sequence': seq, 'batch': rc.enc_batch(pristine)})
     return obs
@@ -78,6 +80,10 @@ def run(ctx):
     ctx.build(['P_C18.vo'], gens=('tables', 'render'))
     ctx.theorems('P_C18')
     formats, cli = rc.cli_formats()
+    try:
+        modelled = rc.modelled_formats()
+    except rc.gen_render.Fail:
+        modelled = set()            # the translator obligation is already broken; the oracle still runs
     cases, descr = [], []
     for lang in ('en', 'ja'):
         fs = formats[lang]
@@ -104,7 +110,10 @@ def run(ctx):
                     ctx.case((lang, sig, tuple(history), f), nontrivial=len(history) >= 1)
                     history.append(f)
                     ctx.count(f'format:{f}')
-                    group['steps'].append((f, ch))
+                    if (lang, f) in modelled:
+                        group['steps'].append((f, ch))
+                    else:
+                        ctx.count(f'not_modelled:{lang}:{f}')
                     if ch:          # the store moved: later steps are compared from the new state
                         flush(group)
                         group['store'], group['steps'] = rc.gbatch(batch), []
@@ -113,15 +122,24 @@ def run(ctx):
                     ctx.sample({'lang': lang, 'sequence': seq, 'changed': [c for _, c in obs], 'sentences': len(batch),
                                 'first_tree_auto': rc.render(lang, [batch[0]], 'auto')[1][:200]})
             flush(group)
-    # every format alone on one fixed batch per language (so no format escapes the random sequences)
+    # every ordered pair of formats f, g, f on a copy of one fixed batch per language (so no format escapes the random sequences)
     for lang in ('en', 'ja'):
-        b = rc.licensed_batch(rng, lang, n=2, with_failed=True)
+        b0 = rc.licensed_batch(rng, lang, n=2, with_failed=True)
         for f in formats[lang]:
             for g in formats[lang]:
+                b = copy.deepcopy(b0)
+                store = rc.gbatch(b)
                 obs = check_sequence(lang, b, [f, g, f], ctx.fail)
                 ctx.case((lang, 'pairs', f, g), nontrivial=True)
-                cases.append(f"Chk18 {lit(lang)} {rc.gbatch(b)} [" + ';'.join(f'({lit(x)},{gbool(c)})' for x, c in obs) + ']')
-                descr.append((lang, 'pairs', [f, g, f], [c for _, c in obs]))
+                steps = []
+                for x, c in obs:            # the model is asked about the steps up to and including the first change
+                    if (lang, x) in modelled:
+                        steps.append((x, c))
+                    if c:
+                        break
+                if steps:
+                    cases.append(f"Chk18 {lit(lang)} {store} [" + ';'.join(f'({lit(x)},{gbool(c)})' for x, c in steps) + ']')
+                    descr.append((lang, 'pairs', [x for x, _ in steps], [c for _, c in steps]))
     bad = ctx.coq_cases('frame', PRE, cases, chunk=60, describe=lambda i: descr[i])
     for i in (bad or [])[:10]:
         ctx.notes.append(f'model/implementation disagreement on "does this rendering change the objects": {descr[i]!r}')
